@@ -17,7 +17,7 @@ import sigtree as st
 from common import correspond, frac_str
 
 TRUSTED = [
-    'Lean 4.33.0 kernel; axioms of every theorem in Props/C13.lean within {propext, Classical.choice, Quot.sound}',
+    'Lean 4.33.0 kernel; axioms of every theorem in Props/C13*.lean within {propext, Classical.choice, Quot.sound}',
     'harness/props/c13.py, harness/sigtree.py (generators, canonicalisation of ScalarExpressions to affine forms)',
     'Driver.lean / Drv/SigL.lean tree evaluator',
 ]
